@@ -8,3 +8,4 @@ cp 1A1P.pdb 1AFS.pdb 1AJJ.pdb 1BX8.pdb 1K1I.pdb 1FAS.cif 1QBS.pdb 1US0.pdb \
    5vav_cyclic_peptide.pdb cterm_hid.pdb 1QBS-ligand.mol2 1US0-ligand.mol2 \
    custom-ff.dat custom.names cterm_hid_out.pqr dx2cube.pqr ethanol.mol2 adp.mol2 \
    /verif/corpus/
+cp propka.cfg with ASP/GLU model pKa raised by 2 -> propka-alt.cfg (see DESIGN 10)
